@@ -201,7 +201,9 @@ theorem split_final {t t' : TTN} {id : Id} {X : NodeS} {outL inL : TTN.LegSpec} 
         (∀ n, t.N k = some n → ∃ n', t'.N k = some n' ∧ SRel id a b aCh k n n')) ∧
       (∀ k, dget t'.tensors k = if k = a then some Ta else if k = b then some Tb
                                 else if k = id then none else dget t.tensors k) ∧
-      t'.root = (if X.parent = none then some a else t.root) := by
+      t'.root = (if X.parent = none then some a else t.root) ∧
+      ((a = outId ∧ (outL.parentLeg.isSome = true ∨ outL.isRoot = true)) ∨
+       (a = inId ∧ (inL.parentLeg.isSome = true ∨ inL.isRoot = true))) := by
   unfold TTN.splitNodes at hs
   by_cases hoi : outId = inId
   · simp [hoi, bind, Option.bind] at hs
@@ -319,6 +321,8 @@ theorem split_final {t t' : TTN} {id : Id} {X : NodeS} {outL inL : TTN.LegSpec} 
                           outL.allNeighbourIds.Nodup → inL.allNeighbourIds.Nodup →
                           (if inL.isRoot then some inId else if outL.isRoot then some outId else t.root) =
                             (if X.parent = none then some a else t.root) →
+                          ((a = outId ∧ (outL.parentLeg.isSome = true ∨ outL.isRoot = true)) ∨
+                            (a = inId ∧ (inL.parentLeg.isSome = true ∨ inL.isRoot = true))) →
                           ∃ a b aCh bCh na nb Ta Tb,
                             ((a = outId ∧ b = inId ∧ aCh = outL.childLegs ∧ bCh = inL.childLegs) ∨
                              (a = inId ∧ b = outId ∧ aCh = inL.childLegs ∧ bCh = outL.childLegs)) ∧
@@ -332,8 +336,10 @@ theorem split_final {t t' : TTN} {id : Id} {X : NodeS} {outL inL : TTN.LegSpec} 
                               (∀ n, t.N k = some n → ∃ n', t'.N k = some n' ∧ SRel id a b aCh k n n')) ∧
                             (∀ k, dget t'.tensors k = if k = a then some Ta else if k = b then some Tb
                                                       else if k = id then none else dget t.tensors k) ∧
-                            t'.root = (if X.parent = none then some a else t.root) := by
-                        intro a b aCh bCh na nb Ta Tb hcfg hNa hNb hTa hTb p1 p2 p3 p4 w1 w2 s1 s2 nd1 nd2 hroot5
+                            t'.root = (if X.parent = none then some a else t.root) ∧
+                            ((a = outId ∧ (outL.parentLeg.isSome = true ∨ outL.isRoot = true)) ∨
+                              (a = inId ∧ (inL.parentLeg.isSome = true ∨ inL.isRoot = true))) := by
+                        intro a b aCh bCh na nb Ta Tb hcfg hNa hNb hTa hTb p1 p2 p3 p4 w1 w2 s1 s2 nd1 nd2 hroot5 hside
                         obtain ⟨hN3, hten3, hroot3, _⟩ := rnisn_eq nd1 hr3
                         obtain ⟨hN4, hten4, hroot4, _⟩ := rnisn_eq nd2 hr4
                         obtain ⟨hnodes5, hten5, hroot5'⟩ := setRoot_eq hr5
@@ -470,7 +476,7 @@ theorem split_final {t t' : TTN} {id : Id} {X : NodeS} {outL inL : TTN.LegSpec} 
                           rcases hab_ids with ⟨_, e2⟩ | ⟨_, e2⟩
                           · exact Or.inr e2
                           · exact Or.inl e2
-                        refine ⟨a, b, aCh, bCh, na, nb, Ta, Tb, ?_, hab, ?_, ?_, p1, p2, p3, p4, w1, w2, s1, s2, ?_, ?_, ?_, ?_⟩
+                        refine ⟨a, b, aCh, bCh, na, nb, Ta, Tb, ?_, hab, ?_, ?_, p1, p2, p3, p4, w1, w2, s1, s2, ?_, ?_, ?_, ?_, hside⟩
                         · rcases hcfg with ⟨e1, e2, e3, e4, _⟩ | ⟨e1, e2, e3, e4, _⟩
                           · exact Or.inl ⟨e1, e2, e3, e4⟩
                           · exact Or.inr ⟨e1, e2, e3, e4⟩
@@ -578,6 +584,7 @@ theorem split_final {t t' : TTN} {id : Id} {X : NodeS} {outL inL : TTN.LegSpec} 
                               exact hp_notin ((hmemX p).mpr (Or.inl hm))))
                             (nodup_allNeighbourIds inL hind (fun q hq => by rw [hip] at hq; simp at hq))
                             (by simp [hri, hro, hXp])
+                            (Or.inl ⟨rfl, Or.inl (by rw [hop]; rfl)⟩)
                         · -- in keeps the parent
                           obtain ⟨inn, i1, i2, i3, i4, i5⟩ := in_node_parent_facts inT inL outL outId p
                             inL.openLegs.length hip hri (by rw [hlenI, hli, hip]; simp; omega) hnd_out_in
@@ -596,6 +603,7 @@ theorem split_final {t t' : TTN} {id : Id} {X : NodeS} {outL inL : TTN.LegSpec} 
                               rw [hip] at hq; simp at hq; subst hq
                               exact hp_notin ((hmemX p).mpr (Or.inr hm))))
                             (by simp [hri, hro, hXp])
+                            (Or.inr ⟨rfl, Or.inl (by rw [hip]; rfl)⟩)
                       · rcases hcase with ⟨hro, hri⟩ | ⟨hro, hri⟩
                         · -- out becomes the root
                           obtain ⟨on, o1, o2, o3, o4, o5⟩ := out_node_root_facts outT outL inL inId
@@ -612,6 +620,7 @@ theorem split_final {t t' : TTN} {id : Id} {X : NodeS} {outL inL : TTN.LegSpec} 
                             (nodup_allNeighbourIds outL hond (fun q hq => by rw [hop] at hq; simp at hq))
                             (nodup_allNeighbourIds inL hind (fun q hq => by rw [hip] at hq; simp at hq))
                             (by simp [hri, hro, hXp])
+                            (Or.inl ⟨rfl, Or.inr hro⟩)
                         · -- in becomes the root
                           obtain ⟨inn, i1, i2, i3, i4, i5⟩ := in_node_root_facts inT inL outL outId
                             inL.openLegs.length hip hri hop (by rw [hlenI, hli, hip]; simp; omega) hnd_out_in
@@ -627,13 +636,14 @@ theorem split_final {t t' : TTN} {id : Id} {X : NodeS} {outL inL : TTN.LegSpec} 
                             (nodup_allNeighbourIds outL hond (fun q hq => by rw [hop] at hq; simp at hq))
                             (nodup_allNeighbourIds inL hind (fun q hq => by rw [hip] at hq; simp at hq))
                             (by simp [hri, hXp])
+                            (Or.inr ⟨rfl, Or.inr hri⟩)
 
 /-- **`split_nodes` keeps the network well-formed** (any splitting function, any admissible leg
     specifications and identifiers). -/
 theorem split_nodes_wf_aux {t t' : TTN} {id : Id} {X : NodeS} {outL inL : TTN.LegSpec} {outId inId : Id}
     {bd : Nat} (h : t.WF) (adm : SplitAdm t id X outL inL outId inId)
     (hs : t.splitNodes id outL inL outId inId bd = some t') : t'.WF := by
-  obtain ⟨a, b, aCh, bCh, na, nb, Ta, Tb, hcfg, hab, hNa, hNb, p1, p2, p3, p4, w1, w2, s1, s2, hid, hby, hT, hR⟩ :=
+  obtain ⟨a, b, aCh, bCh, na, nb, Ta, Tb, hcfg, hab, hNa, hNb, p1, p2, p3, p4, w1, w2, s1, s2, hid, hby, hT, hR, _⟩ :=
     split_final h adm hs
   have hXN := adm.node
   have hSX : t.S id = some (X.parent, X.children) := TTN.S_eq hXN
